@@ -347,6 +347,10 @@ def any_case(rng, drop=False):
             tasks.append({"out": o, "pre": {"how": "nanosleep", "ms": 400 + 600 * ((i + 1) % n)}})
         else:
             tasks.append({"out": o, "pre": {"how": "usleep", "ms": 5000}})
+    # a mix: some members panic (their outcome is skipped by the loop; at least one member yields a value)
+    for i in range(1, n):
+        if rng.random() < 0.3:
+            tasks[i]["out"] = dict(rng.choice(PANIC_OUTS))
     if shape == "none_in_time":
         return {"kind": "any", "api": "any_timeout_join", "dur": rng.choice(["zero", "short", "mid"]), "tasks": tasks}
     if shape == "all_done":
